@@ -490,3 +490,30 @@ Proof.
 Qed.
 
 Print Assumptions cmd_table_ok.
+
+(* Liveness of the routing, from any reachable state: a call that has sent its request and whose response is the
+   next one on the wire completes with exactly that response - whatever other calls (same id or not) did before. *)
+Theorem answered_call_completes : forall ids responses ls r q x rest,
+  let s := run true (init ids responses) ls in
+  get (reqs s) r = Some q -> q_pc q = P2 -> q_slot q = None -> matcher s = M0 ->
+  incoming s = x :: rest -> fst x = q_id q ->
+  let s' := run true s [RLookup; RDeliver; TakeResp r] in
+  exists q', get (reqs s') r = Some q' /\ q_res q' = RResp x /\ q_pc q' = P3.
+Proof.
+  intros ids responses ls r q x rest s Hg Hp Hs Hm Hi Hx s'.
+  destruct (cmd_table_ok ids responses ls) as [Hu _]. fold s in Hu.
+  assert (Hl : lookup (q_id q) (table s) = Some r).
+  { apply (Hu r q Hg); auto.
+    - unfold waiting. rewrite Hp. reflexivity.
+    - intros y. rewrite Hm. discriminate. }
+  subst s'. unfold run. cbn [fold_left]. 
+  assert (E1 : step true s RLookup =
+               {| reqs := reqs s; table := remove_key (fst x) (table s); incoming := rest; matcher := M1 r x;
+                  stream := stream s; consumed := consumed s ++ [x] |}).
+  { cbn [step]. rewrite Hm, Hi, Hx, Hl. reflexivity. }
+  rewrite E1. cbn [step matcher reqs].
+  rewrite (get_upd_eq _ _ _ _ Hg). cbn [set_slot q_pc q_slot]. rewrite Hp. cbn [pc_eqb].
+  eexists. split.
+  - cbn [with_reqs reqs]. apply get_upd_eq. apply get_upd_eq. exact Hg.
+  - split; reflexivity.
+Qed.
